@@ -30,6 +30,9 @@ func checkC13(c *Ctx) {
 	c.nexusKeywords()
 	c.Decides("ALIAS: slices handed out by bufio (ReadLine etc.), valid only until the next read, are copied and never retained by the line readers")
 	c.bufioRetain("ALIAS", []string{"io/fileutils", "io/utils", "io/newick", "io/nexus"}, "Every tree of a multi-tree file is delivered in file order ... or an error is reported")
+	c.Decides("STORE-OR-ERR: in the Nexus TRANSLATE parser every path that has read a key either stores the (key, value) pair or records an error (no entry is dropped silently, whatever token ends it)")
+	c.translateStoreOrErr("STORE-OR-ERR")
+	c.Floor("STORE-OR-ERR", 1)
 	c.Floor("ALIAS", 2)
 	c.Floor("FIRST", 8)
 	c.Floor("PATH", 6)
